@@ -605,8 +605,8 @@ def run(ctx, args):
                 check_strip(ctx, [{"pro": [], "root": case["src"], "epi": []}])
             return ctx.finish("replay of " + args.replay)
         quick = ctx.tier == "quick"
-        n_docs = 120 if quick else 2000
-        per_doc = 5 if quick else 12
+        n_docs = 120 if quick else 1200
+        per_doc = 5 if quick else 10
         docs = [gen_doc_case(ctx.rng, i) for i in range(n_docs)]
         ser_cases = []
         for i, dc in enumerate(docs):
@@ -614,7 +614,7 @@ def run(ctx, args):
                 ser_cases.append(dict(dc, enc=enc, nl=nl, fo=fo, also_write=(i + j) % 3 == 0, also_str=(i + j) % 2 == 0 or not quick))
         check_serialize(ctx, ser_cases)
         streams = []
-        for _ in range(260 if quick else 6000):
+        for _ in range(260 if quick else 4000):
             s = gen_stream(ctx.rng)
             r = ctx.rng.random()
             streams.append((s, r < 0.2 or r > 0.9, 0.1 < r < 0.2 or r > 0.8))
